@@ -1,5 +1,6 @@
 #include <stdlib.h>
 #include <string.h>
+#include <stdio.h>
 #include "wrap.h"
 
 #ifdef CIFX_WRAP
@@ -10,16 +11,29 @@ void __real_free(void *);
 char *__real_strdup(const char *);
 
 static long live = 0, count = 0, armed = 0;
-static int fired = 0;
+static int fired = 0, domain = 0, gate = 0;     /* domain whose requests are counted / failed: 0 library, 1 SQLite, 2 ICU */
 
-static int should_fail(void) {
+static int should_fail_in(int dom) {
+    if (!gate || dom != domain) return 0;
     count += 1;
     if (armed > 0) {
         armed -= 1;
-        if (armed == 0) { fired = 1; return 1; }
+        if (armed == 0) {
+            fired = 1;
+#if defined(__has_feature)
+#if __has_feature(address_sanitizer)
+            if (getenv("CIFX_FAULT_TRACE")) { extern void __sanitizer_print_stack_trace(void); fprintf(stderr, "FAULT injected at:\n"); __sanitizer_print_stack_trace(); }
+#endif
+#endif
+            return 1;
+        }
     }
     return 0;
 }
+static int should_fail(void) { return should_fail_in(0); }
+void wrap_domain(int d) { domain = d; }
+void wrap_gate(int on) { gate = on; }
+int wrap_should_fail(int dom) { return should_fail_in(dom); }
 
 void *__wrap_malloc(size_t n) {
     void *p;
@@ -65,6 +79,9 @@ void *h_realloc(void *p, size_t n) { return __real_realloc(p, n); }
 void h_free(void *p) { __real_free(p); }
 char *h_strdup(const char *s) { return __real_strdup(s); }
 #else
+void wrap_domain(int d) { (void) d; }
+void wrap_gate(int on) { (void) on; }
+int wrap_should_fail(int dom) { (void) dom; return 0; }
 long wrap_live(void) { return 0; }
 long wrap_count(void) { return 0; }
 void wrap_count_reset(void) { }
